@@ -11,7 +11,18 @@ package fs
 // absolute one is an error), and the target is resolved against the directory of the link. For the recursion
 // to end on every tree — including one with a symlink loop — it needs a measure that decreases at each hop;
 // the path alone is none.
-//@ assume func (CASFileSystem).findNode
+// findNode resolves the first path component in the given directory: a file or a symlink is returned only
+// when that component is the LAST one (a path that continues below a file or a link does not exist), and the
+// node returned for a single component carries exactly that name.
+//@ func (CASFileSystem).findNode
+//@   requires fs != nil && wd != nil
+//@   opt nopanic=off
+//@   opt inline=off
+//@   opt precall=off
+//@   ensures files_and_links_only_as_the_last_component [C29]: \
+//@      (result0 != nil || result2 != nil) && !called("(CASFileSystem).findNode") ==> !hasToBeDir
+//@   ensures the_named_file [C29]: result0 != nil && !called("(CASFileSystem).findNode") ==> result0.Name == name
+//@   ensures the_named_link [C29]: result2 != nil && !called("(CASFileSystem).findNode") ==> result2.Name == name
 //@ assume func (CASFileSystem).openFile
 //@ assume func (CASFileSystem).openDir
 //@ func (CASFileSystem).open
